@@ -17,6 +17,7 @@ import (
 	"runtime/debug"
 	"sort"
 	"sync"
+	"sync/atomic"
 	"time"
 
 	"github.com/openGemini/openGemini/engine/index/tsi"
@@ -51,6 +52,7 @@ type VerifDropEngine struct {
 	Dir     string
 	client  *metaclient.Client
 	stopped map[*tsi.MergeSetIndex]bool
+	clock   uint64
 }
 
 var verifLoadCtxOnce sync.Once
@@ -123,10 +125,19 @@ func VerifOpenDropEngine(dir string, shards []VerifEngineShard) (v *VerifDropEng
 	}
 	client := metaclient.NewClient("", false, 0)
 	client.SetCacheData(data)
+	// a start of the store process: the node's logical clock (the high bytes of every tsid issued
+	// from now on) is one more than at the last start (metaclient.LogicClock, bumped in the clock
+	// file at every start; loadDbPtShards hands it to the partition before its indexes are opened)
+	eng.SetMetaClient(client)
+	clock := atomic.AddUint64(&verifClock, 1)
+	for db := range briefs {
+		eng.CreateDBPT(db, verifEnginePt, false)
+		eng.DBPartitions[db][verifEnginePt].logicClock = clock
+	}
 	if err = eng.Open(durations, briefs, client); err != nil {
 		return nil, err
 	}
-	return &VerifDropEngine{eng: eng, Dir: dir, client: client}, nil
+	return &VerifDropEngine{eng: eng, Dir: dir, client: client, clock: clock}, nil
 }
 
 // CreateShard is the store's handling of a shard the catalogue has just created.
@@ -137,6 +148,11 @@ func (v *VerifDropEngine) CreateShard(s VerifEngineShard) (err error) {
 		}
 	}()
 	v.eng.createDBPTIfNotExist(s.DB, verifEnginePt, false)
+	v.eng.mu.RLock()
+	if pt := v.eng.DBPartitions[s.DB][verifEnginePt]; pt != nil && pt.logicClock == 0 {
+		pt.logicClock = v.clock
+	}
+	v.eng.mu.RUnlock()
 	return v.eng.CreateShard(s.DB, s.RP, verifEnginePt, s.ShardID, verifShardTimes(s), &meta.MeasurementInfo{EngineType: config.TSSTORE})
 }
 
